@@ -186,6 +186,7 @@ Section StrictCase.
   Hypothesis Hfc : t_failcalls c = [].
   Hypothesis Hkill : (t_killAt c <? 0)%Z = true.
   Hypothesis Hbad : forallb (Z.leb 0) (t_bad c) = true.
+  Hypothesis Hfull : t_full c = false.
 
   Let cfg := cfg_of c.
   Let inner := inner_of c.
@@ -227,50 +228,60 @@ Section StrictCase.
     assert (Hnn : forall z, r_err r = PInner z -> (perr_code (r_err r) =? -1)%Z = false /\ (perr_code (r_err r) =? -3)%Z = false
                                               /\ (0 <=? perr_code (r_err r))%Z = true).
     { intros z Hz. pose proof (Hcode z Hz) as Hz0. rewrite Hz. cbn. repeat split; [apply Z.eqb_neq | apply Z.eqb_neq | apply Z.leb_le]; lia. }
-    unfold spec_run. rewrite strict_true. cbn [to_orun or_ev or_err or_tok or_pending or_killed].
-    rewrite Hrest, K. cbn [andb]. rewrite Hgood, Hbadr. cbn [andb].
+    assert (Hiff : Bool.eqb (perr_code (r_err r) =? -1)%Z (match reported (r_log r) with [] => true | _ => false end) = true).
+    { destruct (reported (r_log r)) eqn:Hrp.
+      - rewrite (proj2 Hok eq_refl). reflexivity.
+      - destruct Herr as [He|[zc Hz]]; [apply Hok in He; discriminate|]. destruct (Hnn zc Hz) as (H1 & _ & _). rewrite H1. reflexivity. }
     set (k := Z.to_nat (t_maxItems c)) in *.
     change (c_maxItems cfg) with k in *.
-    set (rest := skipn (j_tok st) src) in *.
     assert (Hpend : (if r_pending r then t_rerun c && negb (perr_code (r_err r) =? -1)%Z && negb (perr_code (r_err r) =? -3)%Z else true) = true).
     { destruct (r_pending r) eqn:Hpd; [|reflexivity]. destruct (Hp eq_refl) as (Hrr & _ & _ & zc & Hz).
       destruct (Hnn zc Hz) as (H1 & H3 & _). change (c_rerun cfg) with (t_rerun c) in Hrr. rewrite Hrr, H1, H3. reflexivity. }
-    rewrite Hpend, !andb_true_r.
-    destruct (limit_hit k (length (reported (r_log r)))) eqn:Hh.
-    - (* the limit was reached in this run *)
-      destruct (Hhit eq_refl) as (new0 & x & rest' & Hlg & Hflat & Hmin & Htkb).
-      assert (Hbads : filter (is_bad c) rest = reported (r_log r) ++ filter (is_bad c) rest').
-      { rewrite <- Hflat, filter_app, <- Hpart. reflexivity. }
-      rewrite Hbads, app_length. rewrite (limit_hit_mono _ _ _ Hh).
-      assert (Hk : k = length (reported (r_log r))).
-      { rewrite Hlg, reported_app, app_length. cbn [reported flat_map ev_rep app length].
-        apply limit_hit_exact; [exact Hmin|]. rewrite Hlg, reported_app, app_length in Hh. exact Hh. }
-      rewrite Hk at 1. rewrite firstn_app, Nat.sub_diag, firstn_all. cbn [firstn]. rewrite app_nil_r.
-      apply andb_true_iff. split; [rewrite <- Hflat; apply is_prefix_app|].
-      repeat (apply andb_true_iff; split).
-      + apply zl_eqb_eq. reflexivity.
-      + unfold ends_with_rep. rewrite Hlg, rev_app_distr. reflexivity.
-      + destruct Herr as [He|[zc Hz]]; [|apply (Hnn zc Hz)].
-        exfalso. apply Hok in He. rewrite He in Hh. unfold limit_hit in Hh. cbn in Hh.
-        destruct k; cbn in Hh; discriminate.
-      + apply Z.leb_le. rewrite Hlg, flat_app, app_length. cbn [flat flat_map ev_flat app length]. lia.
-    - (* below the limit: the whole feed from the token on *)
-      destruct (Hnot eq_refl) as [Hflat Htke]. rewrite Hflat in Hpart.
-      rewrite <- Hpart, Hh, Hflat, is_prefix_refl. cbn [andb].
-      apply andb_true_iff; split; [apply andb_true_iff; split|].
-      + apply zl_eqb_eq. reflexivity.
-      + apply Z.eqb_eq. rewrite Htke, Hlen. reflexivity.
-      + destruct (reported (r_log r)) eqn:Hrp.
-        * rewrite (proj2 Hok eq_refl). reflexivity.
-        * destruct Herr as [He|[zc Hz]]; [apply Hok in He; discriminate | apply (Hnn zc Hz)].
+    set (rest := skipn (j_tok st) src) in *.
+    assert (Hmain : is_prefix (flat (r_log r)) rest = true
+                    /\ (if limit_hit k (length (filter (is_bad c) rest))
+                        then zlist_eqb (reported (r_log r)) (firstn k (filter (is_bad c) rest)) && ends_with_rep (r_log r)
+                             && (0 <=? perr_code (r_err r))%Z
+                             && (t_full c || (Z.of_nat (r_tok r) <=? Z.of_nat (j_tok st) + Z.of_nat (length (flat (r_log r))) - 1)%Z)
+                        else zlist_eqb (flat (r_log r)) rest && (Z.of_nat (r_tok r) =? Z.of_nat n)%Z
+                             && match filter (is_bad c) rest with [] => (perr_code (r_err r) =? -1)%Z | _ => (0 <=? perr_code (r_err r))%Z end) = true).
+    { destruct (limit_hit k (length (reported (r_log r)))) eqn:Hh.
+      - destruct (Hhit eq_refl) as (new0 & x & rest' & Hlg & Hflat & Hmin & Htkb).
+        assert (Hbads : filter (is_bad c) rest = reported (r_log r) ++ filter (is_bad c) rest').
+        { rewrite <- Hflat, filter_app, <- Hpart. reflexivity. }
+        rewrite Hbads, app_length. rewrite (limit_hit_mono _ _ _ Hh).
+        assert (Hk : k = length (reported (r_log r))).
+        { rewrite Hlg, reported_app, app_length. cbn [reported flat_map ev_rep app length].
+          apply limit_hit_exact; [exact Hmin|]. rewrite Hlg, reported_app, app_length in Hh. exact Hh. }
+        rewrite Hk at 1. rewrite firstn_app, Nat.sub_diag, firstn_all. cbn [firstn]. rewrite app_nil_r.
+        split; [rewrite <- Hflat; apply is_prefix_app|].
+        repeat (apply andb_true_iff; split).
+        + apply zl_eqb_eq. reflexivity.
+        + unfold ends_with_rep. rewrite Hlg, rev_app_distr. reflexivity.
+        + destruct Herr as [He|[zc Hz]]; [|apply (Hnn zc Hz)].
+          exfalso. apply Hok in He. rewrite He in Hh. unfold limit_hit in Hh. cbn in Hh.
+          destruct k; cbn in Hh; discriminate.
+        + rewrite Hfull. cbn [orb]. apply Z.leb_le. rewrite Hlg, flat_app, app_length. cbn [flat flat_map ev_flat app length]. lia.
+      - destruct (Hnot eq_refl) as [Hflat Htke]. rewrite Hflat in Hpart.
+        rewrite <- Hpart, Hh, Hflat, is_prefix_refl. split; [reflexivity|].
+        apply andb_true_iff; split; [apply andb_true_iff; split|].
+        + apply zl_eqb_eq. reflexivity.
+        + apply Z.eqb_eq. rewrite Htke, Hlen. reflexivity.
+        + destruct (reported (r_log r)) eqn:Hrp.
+          * rewrite (proj2 Hok eq_refl). reflexivity.
+          * destruct Herr as [He|[zc Hz]]; [apply Hok in He; discriminate | apply (Hnn zc Hz)]. }
+    destruct Hmain as [Hpre Hlim].
+    unfold spec_run. rewrite strict_true. cbn [to_orun or_ev or_err or_tok or_pending or_killed].
+    rewrite Hrest, K, Hlog, Hkill. fold rest. fold k. cbn [andb].
+    rewrite Hpre, Hgood, Hbadr, Hlim, Hpend, Hiff. reflexivity.
   Qed.
 
   Lemma chain_spec : forall fuel n adds crons (st : jstate Z),
     jinv st n ->
-    spec_runs c (j_tok st) n adds (map to_orun (chain inner VFixed cfg fuel n adds crons st)) = true.
+    spec_runs c (j_tok st) n adds (map to_orun (chain inner VFixed cfg false fuel n adds crons st)) = true.
   Proof.
     induction fuel as [|f IH]; intros n adds crons st Hinv; [reflexivity|].
-    cbn [chain].
+    cbn [chain]. change (run_any inner VFixed cfg false (zseq 0 n) st) with (run inner VFixed cfg (zseq 0 n) st).
     pose proof (run_spec n st Hinv) as S.
     destruct (run inner VFixed cfg (zseq 0 n) st) as [r st'] eqn:R. cbn [fst snd] in S.
     destruct S as (Hs & Htk & Hinv').
@@ -278,10 +289,10 @@ Section StrictCase.
     assert (Hinv'' : jinv st' n').
     { destruct Hinv' as (H1 & H2 & H3). unfold jinv. split; [subst n'; destruct adds; lia | split; assumption]. }
     destruct (r_pending r).
-    - cbn [map spec_runs]. rewrite Hs, Htk. cbn [andb]. apply IH. exact Hinv''.
+    - cbn [map spec_runs]. rewrite Hfull, Hs, Htk. cbn [andb]. apply IH. exact Hinv''.
     - destruct crons as [|cr].
-      + cbn [map spec_runs]. rewrite Hs. reflexivity.
-      + cbn [map spec_runs]. rewrite Hs, Htk. cbn [andb]. apply IH. exact Hinv''.
+      + cbn [map spec_runs]. rewrite Hfull, Hs. reflexivity.
+      + cbn [map spec_runs]. rewrite Hfull, Hs, Htk. cbn [andb]. apply IH. exact Hinv''.
   Qed.
 End StrictCase.
 
@@ -295,10 +306,11 @@ Qed.
 Theorem agree_fixed_spec_job c :
   t_job c = true -> (0 <? t_burst c)%Z = false ->
   t_log c = true -> t_failcalls c = [] -> (t_killAt c <? 0)%Z = true -> forallb (Z.leb 0) (t_bad c) = true ->
+  t_full c = false ->
   (Z.of_nat (Z.to_nat (t_crons c)) + Z.max 0 (retries0 c) < 60)%Z ->
   agree VFixed c = true -> spec_ok c = true.
 Proof.
-  intros Hj Hb Hlog Hfc Hkill Hbad Hfuel. unfold agree, spec_ok, agree_job, spec_job. rewrite Hj, Hb.
+  intros Hj Hb Hlog Hfc Hkill Hbad Hfull Hfuel. unfold agree, spec_ok, agree_job, spec_job. rewrite Hj, Hb.
   intros H. apply andb_true_iff in H. destruct H as [Ho H]. rewrite Ho. cbn [andb].
   apply andb_true_iff in H. destruct H as [H _]. apply andb_true_iff in H. destruct H as [H _].
   apply orunlist_eqb_eq in H. rewrite <- H. unfold predict_job.
@@ -306,12 +318,12 @@ Proof.
   set (st0 := j_init (retries0 c)).
   assert (Hinv : jinv st0 n).
   { unfold jinv, st0, j_init, clean, last_ok. cbn. split; [lia | split; [auto | discriminate]]. }
-  pose proof (chain_spec c Hlog Hfc Hkill Hbad 60 n adds crons st0 Hinv) as Hs. cbn [st0 j_init j_tok] in Hs.
+  rewrite Hfull. pose proof (chain_spec c Hlog Hfc Hkill Hbad Hfull 60 n adds crons st0 Hinv) as Hs. cbn [st0 j_init j_tok] in Hs.
   rewrite Hs. cbn [andb].
   apply andb_true_iff. split.
   - apply Z.leb_le. rewrite count_pending_map.
-    pose proof (chain_pending_bound (inner_of c) VFixed (cfg_of c) 60 n adds crons st0) as B. exact B.
-  - destruct (chain_last (inner_of c) VFixed (cfg_of c) 60 n adds crons st0) as (rs & r & Hc & Hr).
+    pose proof (chain_pending_bound (inner_of c) VFixed (cfg_of c) false 60 n adds crons st0) as B. exact B.
+  - destruct (chain_last (inner_of c) VFixed (cfg_of c) false 60 n adds crons st0) as (rs & r & Hc & Hr).
     { cbn. exact Hfuel. }
     rewrite Hc, map_app, rev_app_distr. cbn. rewrite Hr. reflexivity.
 Qed.
@@ -324,6 +336,6 @@ Proof.
   intros H. apply andb_true_iff in H. destruct H as [Ho H]. rewrite Ho. cbn [andb].
   apply andb_true_iff in H. destruct H as [H _]. apply Z.eqb_eq in H. rewrite H.
   apply Z.leb_le. apply Z.ltb_lt in Hb. unfold predict_burst.
-  pose proof (burst_len_bound (inner_of c) v (cfg_of c) 60 (Z.to_nat (t_n c)) (Z.to_nat (t_burst c)) 0 (j_init (retries0 c))) as B.
+  pose proof (burst_len_bound (inner_of c) v (cfg_of c) (t_full c) 60 (Z.to_nat (t_n c)) (Z.to_nat (t_burst c)) 0 (j_init (retries0 c))) as B.
   cbn [j_init j_retries] in B. rewrite Z2Nat.id in B by lia. lia.
 Qed.
